@@ -69,6 +69,10 @@ def globals_rule(run, m, F, E, tag=''):
     for name in F.lib:
         f = m.func(name)
         s = [x for x in E.sum[name]['stores'] if x[0] == 'G']
+        # per-thread objects cannot be shared: a thread_local (and its guard) is written by its own thread only; registering its
+        # destructor hands __cxa_thread_atexit the destructor's address and __dso_handle, which are not data
+        s = [x for x in s if not (m.globals.get(x[1], {}).get('tls') or x[1] == '__dso_handle' or
+                                  (x[1] not in m.globals and '(' in m.dem(x[1])))]
         nf += 1
         if s:
             tgt = sorted(set(m.globals.get(x[1], {}).get('dem', x[1]) for x in s))
